@@ -29,7 +29,7 @@ A case is a JSON-able dict:
                    optional 'lg','lx': [K], optional 'parA','parB': bool (False: that factor is a parameter-free
                    PDF ratio whose get_gradient returns the int 0 — the yields still depend on the parameter)}
   A dataset whose yield row is all zero may have selected events (SourceWeightedPDFRatio keeps the zero numerator,
-  `if A > 0`).
+  `if A != 0`).
 """
 import numpy as np
 
@@ -292,7 +292,7 @@ def evaluate(B, theta):
 
 def alphas(case):
     """per dataset the list of ns_j * X_i / ns = f_j * X_i of the selected events (computed from the case alone, with the
-    `if A > 0` guard of SourceWeightedPDFRatio)"""
+    `if A != 0` guard of SourceWeightedPDFRatio)"""
     loc = local_values(case)
     W = np.array(case['W'], dtype=np.float64)
     a = np.array([W * yield_tables(case, j, loc)[0] for j in range(len(case['ds']))])
@@ -303,7 +303,7 @@ def alphas(case):
         m = mask_of(case, j)
         sel = m.any(axis=0)
         R = ((rA * rB * m) * a[j][:, None]).sum(axis=0)
-        if a[j].sum() > 0:
+        if a[j].sum() != 0:
             R = R / a[j].sum()
         out.append(f[j] * (R[sel] - 1.0) / d['N'])
     return out
@@ -322,7 +322,7 @@ def f_and_X(case, trial=0, theta=None):
         m = mask_of(case, j, trial)
         sel = m.any(axis=0)
         R = ((rA * rB * m) * a[j][:, None]).sum(axis=0)
-        if a[j].sum() > 0:
+        if a[j].sum() != 0:
             R = R / a[j].sum()
         N = trial_n_events(case, j, trial)
         Xs.append((R[sel] - 1.0) / N)
@@ -363,7 +363,6 @@ def _grid_x(case, trial):
 
 
 def build_grid(case, trial=0):
-    from scipy.interpolate import RegularGridInterpolator
     from skyllh.core.backgroundpdf import BackgroundMultiDimGridPDF
     from skyllh.core.binning import BinningDefinition
     from skyllh.core.interpolate import (Linear1DGridManifoldInterpolationMethod,
@@ -385,8 +384,8 @@ def build_grid(case, trial=0):
     grid = ParameterGrid('gamma', gvals, delta=GRID_DELTA, decimals=1)
     pdfs = []
     for g in gvals:
+        # public constructor only: it builds the linear RegularGridInterpolator on the bin edges itself
         pdf = SignalMultiDimGridPDF(pmm=pmm, axis_binnings=axes, pdf_grid_data=grid_sig(g), cfg=cfg)
-        pdf._pdf = RegularGridInterpolator((GRID_EDGES,), grid_sig(g), method='linear', bounds_error=False, fill_value=0)
         pdfs.append(({'gamma': float(g)}, pdf))
     icls = Linear1DGridManifoldInterpolationMethod if case['interp'] == 'linear' \
         else Parabola1DGridManifoldInterpolationMethod
@@ -394,7 +393,6 @@ def build_grid(case, trial=0):
         pmm=pmm, param_set=ParameterSet([Parameter('gamma', 1.5, float(gvals[0]), float(gvals[-1]))]),
         param_grid_set=grid, gridparams_pdfs=pdfs, interpol_method_cls=icls, cfg=cfg)
     bkg = BackgroundMultiDimGridPDF(pmm=pmm, axis_binnings=axes, pdf_grid_data=grid_bkg(), cfg=cfg)
-    bkg._pdf = RegularGridInterpolator((GRID_EDGES,), grid_bkg(), method='linear', bounds_error=False, fill_value=0)
     inner = SigOverBkgPDFRatio(sig_pdf=sigset, bkg_pdf=bkg, same_axes=False, cfg=cfg)
     Y = np.array([case['y']], dtype=np.float64)
     (dsy, sdw, dswf) = fx.make_weight_services(shg_mgr, Y)
